@@ -20,7 +20,8 @@ LEVEL_TEXT = ("Fault injection around the real load_csv_dataset_from_remote / lo
               "length 0..n_retries+2 for n_retries 0..3 followed by good / corrupted / truncated / garbage / gzip "
               "payloads, judged on requests issued, virtual sleeps, exception type, cache state and a follow-up load; "
               "(b) a SIGKILL at every Python LINE event, every CALL / C_RETURN event inside datasets/_base.py and every "
-              "write / rename / unlink / rmdir / mkdir system call (strace injection) of a load, for plain and gzip "
+              "write / rename / unlink / rmdir / mkdir system call (strace injection) of a load - and, instead of a kill, "
+              "an error return (ENOSPC on write, EACCES on rename / mkdir) from each of those calls -, for plain and gzip "
               "payloads, flag combinations and cold / warm caches, followed by an offline check of the cache entry "
               "(absent or bit-for-bit complete) and follow-up loads with and without network; (c) 2..16 concurrent "
               "loader processes on one data home with yield injection, judged on every return value, the final entry "
@@ -36,7 +37,7 @@ RULE = ("case = one load under one fault: a fault sequence (enumerated), a kill 
         "(>= 1 failing request, the process died by SIGKILL, >= 2 loaders overlapped, a pair of different names); "
         "distinct by case description.")
 REQUIRED_MONITORS = ["c19:fault_sequence", "c19:kill_line", "c19:kill_call", "c19:concurrent", "c19:flags", "c19:pairs",
-                     "c19:followup_after_kill"]
+                     "c19:followup_after_kill"]      # c19:kill_syscall / c19:syscall_error need strace (skipped + noted if absent)
 ASSUMPTIONS = ["process crash only (no fsync / power loss claims)", "the fake opener stands for the network"]
 TIMEOUT = {"quick": 900, "thorough": 7200}
 FAULTS = ["urlerror", "timeout", "http503", "short", "midbody"]
@@ -71,12 +72,16 @@ def plan(tier, seed):
     cfgs = kill_configs(tier)
     stride = 4 if tier == "quick" else 1
     for ci, cfg in enumerate(cfgs):
-        for mode in ("line", "call", "syscall"):
-            if tier == "quick" and mode == "syscall":
-                cfg = cfg[:4] + (6000,)        # many write calls: the interesting case for syscall-level kills
+        for mode in ("line", "call", "syscall", "syserr"):
+            if mode == "syserr" and not (cfg[1] and (cfg[2] or not cfg[3])):
+                continue                       # error injection only where something is written
+            if tier == "quick" and mode in ("syscall", "syserr"):
+                cfg = cfg[:4] + (6000,)        # many write calls: the interesting case for syscall-level faults
             nparts = 8 if tier == "quick" else (6 if mode == "line" else 2)
             if tier == "quick" and mode != "line":
                 nparts = 2
+            if mode == "syserr":
+                nparts = 1
             for p in range(nparts):
                 specs.append({"kind": "kill", "cfg": list(cfg), "mode": mode, "part": p, "parts": nparts,
                               "stride": stride if mode == "line" else 1})
@@ -286,13 +291,17 @@ def run_kill(ctx, spec):
     scratch = _ds.scratch_root()
     try:
         steps, ti = kill_steps(cfg, url, rows)
-        if mode == "syscall":
+        if mode in ("syscall", "syserr"):
             if not strace_available():
                 ctx.discard("strace_unavailable")
                 ctx.note("strace not usable here: syscall kill points skipped, Python-event enumeration decides")
                 return
             counts = syscall_counts(cfg, url, rows, scratch, scratch)
-            points = [(c, k) for c in STRACE_CALLS if c != "openat" for k in range(1, counts.get(c, 0) + 1)]
+            if mode == "syserr":
+                # the call fails instead of the process dying: no space left on device / rename refused / mkdir refused
+                points = [(c, k) for c in ("write", "rename", "mkdir") for k in range(1, counts.get(c, 0) + 1)]
+            else:
+                points = [(c, k) for c in STRACE_CALLS if c != "openat" for k in range(1, counts.get(c, 0) + 1)]
             ctx.setadd("syscall_counts", "%s: %s" % (name, json.dumps(counts, sort_keys=True)))
         else:
             home = os.path.join(scratch, "dry")
@@ -311,6 +320,19 @@ def run_kill(ctx, spec):
             os.mkdir(home)
             cid = {"kind": "kill", "cfg": list(cfg), "mode": mode, "what": what, "at": k, "seed": ctx.seed}
             warm_up(cfg, url, rows, home, scratch)
+            if mode == "syserr":
+                errno_ = {"write": "ENOSPC", "rename": "EACCES", "mkdir": "EACCES"}[what]
+                prefix = ["strace", "-f", "-qq", "-o", "/dev/null", "-e", "trace=" + what,
+                          "-e", "inject=%s:error=%s:when=%d" % (what, errno_, k)]
+                rc, out, err = _ds.run_child({"home": home, "steps": steps}, scratch, prefix=prefix)
+                if out is None:
+                    # the injected error also hits the child's own result line (a write to stdout): not a load fault
+                    ctx.discard("syserr_hit_the_harness_output")
+                    shutil.rmtree(home, ignore_errors=True)
+                    continue
+                judge_after_syserr(ctx, cid, cfg, url, rows, home, scratch, out, ti, what, errno_)
+                shutil.rmtree(home, ignore_errors=True)
+                continue
             if mode == "syscall":
                 prefix = ["strace", "-f", "-qq", "-o", "/dev/null", "-e", "trace=" + what,
                           "-e", "inject=%s:signal=KILL:when=%d" % (what, k)]
@@ -329,6 +351,42 @@ def run_kill(ctx, spec):
             ctx.sample({"config": name, "kill_mode": mode, "points_in_this_shard": len(mine), "first": list(mine[0])})
     finally:
         shutil.rmtree(scratch, ignore_errors=True)
+
+
+def judge_after_syserr(ctx, cid, cfg, url, rows, home, scratch, out, ti, what, errno_):
+    """a system call of the load failed (disk full, permission): the load may fail, but the cache entry must be absent or
+    complete (a pre-existing one intact), and a later load without the fault must succeed and return exactly the data"""
+    gz, dim, deia, warm = cfg[:4]
+    ctx.judged()
+    ctx.monitor("c19:syscall_error")
+    r = out["results"][ti]
+    entry = os.path.join(home, "fold", "entry")
+    state = _ds.cache_entry_ok(entry, url, rows)
+    detail = {"failed_call": what, "errno": errno_, "outcome": r.get("outcome"), "exception": r.get("exc_type"),
+              "message": r.get("exc_msg"), "state": state}
+    ctx.count("syserr:%s:%s" % (what, r.get("exc_type") or "ok"))
+    if state not in ("absent", "complete") or (warm and state != "complete"):
+        ctx.violation("cache_entry_damaged_by_failed_system_call", cid, detail)
+        return
+    if r.get("outcome") == "ok":
+        if not _ds.same_data(r["data"], _ds.expected_desc(url, rows)):
+            ctx.violation("wrong_data_returned_after_failed_system_call", cid, detail)
+            return
+    elif "OSError" not in (r.get("exc_mro") or []):
+        ctx.violation("failed_system_call_surfaced_as_non_OSError", cid, detail)
+        return
+    base = {"op": "remote", "url": url, "dataset_filename": "entry", "folder": "fold", "gz": gz, "rows": rows,
+            "n_retries": 0, "delay": 0.1}
+    rc, fo, err = _ds.run_child({"home": home, "steps": [{"op": "net", "default": "good"}, base]}, scratch)
+    if fo is None:
+        raise RuntimeError("follow-up child failed rc=%s %s" % (rc, err))
+    f = fo["results"][1]
+    if f.get("outcome") != "ok" or not _ds.same_data(f["data"], _ds.expected_desc(url, rows)):
+        ctx.violation("later_load_fails_after_failed_system_call", cid, dict(detail, follow_up=f.get("exc_type"),
+                                                                              follow_up_message=f.get("exc_msg")))
+        return
+    if r.get("outcome") != "ok":
+        ctx.nontriv("syserr", cid["cfg"], what, cid["at"])
 
 
 def judge_after_kill(ctx, cid, cfg, url, rows, home, scratch, killed, out, ti):
